@@ -80,7 +80,7 @@
 #define VERIF_INV_JOURNAL_ADD_BLOCKS_TO_TRANS \
 	__CPROVER_assigns(i, j, tag_bytes, err, jdbt, jdb_blk, curr_blk, __CPROVER_object_whole(data_bh), __CPROVER_object_whole(bh), G) \
 	__CPROVER_loop_invariant(i <= block_len && G.nread == i && G.phase == 0 && G.sealed == 0 && G.failed == 0 && G.eof == 0) \
-	__CPROVER_loop_invariant(data_bh->b_size == (int)g_bs && data_bh->b_err == 0 && bh->b_err == 0) \
+	__CPROVER_loop_invariant(data_bh->b_size == (int)g_bs && data_bh->b_err == 0 && bh->b_err == 0 && data_bh->b_dirty == 0 && bh->b_dirty == 0) \
 	__CPROVER_loop_invariant(12 <= G.next_off && G.next_off <= g_usable && (char *)jdbt == (char *)jdb_buf + G.next_off) \
 	__CPROVER_loop_invariant((G.ntags == 0) == (G.next_off == 12)) \
 	__CPROVER_loop_invariant(jdb_blk == G.desc_slot && curr_blk == jdb_blk + 1 + G.ntags) \
@@ -88,10 +88,16 @@
 	__CPROVER_loop_invariant(!(g_kd >= 12 && g_kd < G.next_off) || B(jdb_buf)[g_kd] == G.desc_wit) \
 	__CPROVER_decreases(block_len - i)
 
+/* ghost re-basing of the tag cursor on the descriptor buffer (asserted to be the identity): after the loop cut the
+ * verifier knows only through the invariant which object jdbt points into */
+#define VERIF_MON_JOURNAL_ADD_BLOCKS_TO_TRANS_BEGIN { \
+	__CPROVER_assert(jdbt == (journal_block_tag_t *)(bh->b_data + G.next_off), "CHECK:ghost re-basing of jdbt is the identity"); \
+	jdbt = (journal_block_tag_t *)(bh->b_data + G.next_off); }
+
 #include "debugfs/do_journal.c"
 
-#define JW_DATA_BH g_bhs[0]
-#define JW_META_BH g_bhs[1]
+#define JW_DATA_BH g_bh0
+#define JW_META_BH g_bh1
 
 #define JW_WANT_FREAD
 #include "jw_stubs.h"
